@@ -1,7 +1,56 @@
-(** C05 — statements about the node model; see Proofs/NodeFacts.v *)
-From Wasp Require Import Model.Base Model.Node.
-From stdpp Require Import list.
+(** C05 — Inbound publishes: stored before acknowledged; QoS 2 forwarded exactly once.
+    Statements about the node model (Model/Node.v); proofs under Proofs/NodeFacts.v. *)
+From Wasp Require Import Model.Base Spec.MatchSpec Model.DState Model.IdPool Model.Mount Model.Node Proofs.BaseFacts Proofs.MountFacts Proofs.NodeFacts.
+From stdpp Require Import list strings.
 Open Scope Z_scope.
-Theorem C05_model_is_total : ∀ seen cl o, ∃ cl' obs, step seen cl o = (cl', obs).
-Proof. intros. destruct (step seen cl o) as [cl' obs]. by exists cl', obs. Qed.
-Print Assumptions C05_model_is_total.
+
+(** Distribute: the destination set is the set of nodes named by the matching subscriptions
+    known to the publishing node.  Every observation it produces is a log append, an append
+    failure or an inter-node call; it reports failure iff some local append or some remote
+    write failed ([bad_store]); when it reports success the message has been appended at every
+    destination - whatever the failure oracle (next appends failing, peers unreachable) is. *)
+Theorem stored_iff_reported_ok : ∀ cl i m, let r := distribute cl i m in
+  quiet (λ x, negb (is_store x)) r.1.2 ∧
+  r.2 = existsb bad_store r.1.2 ∧
+  (r.2 = false → ∀ dst, dst ∈ dests_of cl i m → existsb (stored_at (Z.to_nat (dst - 1)) m) r.1.2 = true) ∧
+  (Forall (λ d : Z, (1 ≤ d)%Z) (dests_of cl i m) → ∀ j, (napp j r.1.2 ≤ 1)%nat) ∧
+  (∀ j, (∀ dst, dst ∈ dests_of cl i m → Z.to_nat (dst - 1) ≠ j) → napp j r.1.2 = 0%nat).
+Proof. exact distribute_spec. Qed.
+Print Assumptions stored_iff_reported_ok.
+
+(** The publish worker: the acknowledgement packets [ackp] (PUBACK for QoS 1, PUBCOMP for a
+    completed QoS 2 handshake) are written after the store observations, and only when no
+    store failed; then every destination node has the message in its log. *)
+Theorem ack_after_store : ∀ cl i m retain clk ackp, ∃ cl1 o,
+  (worker cl i m retain clk ackp).2 = o ++ (if existsb bad_store o then [] else ackp) ∧
+  quiet (λ x, negb (is_store x)) o ∧
+  (existsb bad_store o = false → ∀ dst, dst ∈ dests_of cl1 i m → existsb (stored_at (Z.to_nat (dst - 1)) m) o = true) ∧
+  (∀ j, (∀ dst, dst ∈ dests_of cl1 i m → Z.to_nat (dst - 1) ≠ j) → napp j o = 0%nat).
+Proof. exact worker_spec. Qed.
+Print Assumptions ack_after_store.
+
+(** QoS 2: a PUBLISH alone stores nothing anywhere (it only arms the handshake and answers
+    PUBREC), unless its identifier is 0 or already pending, in which case the session ends;
+    a PUBREL for an identifier with no pending handshake - never published, already completed
+    by an earlier PUBREL, or timed out - changes nothing and forwards nothing. *)
+Theorem qos2_never_on_publish_alone : ∀ cl c p dup mid clk, p_qos p = 2 →
+  quiet is_store (do_publish cl c p dup mid clk).2 ∨ ∃ k, find_conn cl c = Some k ∧ (do_publish cl c p dup mid clk) = end_session cl k false clk.
+Proof. exact qos2_publish_stores_nothing. Qed.
+Print Assumptions qos2_never_on_publish_alone.
+Theorem qos2_not_again : ∀ cl c mid clk k n s,
+  find_conn cl c = Some k → c_closed k = false → c_sid k = Some (ss_id s) → n = getn cl (c_node k) →
+  alookup (ss_id s) (n_reg n) = Some s → ack_find (n_acks n) (ss_id s ++ "/in") mid = None →
+  do_ack cl c PUBREL mid clk = (cl, dl s).
+Proof. exact stray_pubrel_forwards_nothing. Qed.
+Print Assumptions qos2_not_again.
+
+(** non-vacuity: a QoS 1 publish with the local append failing is not acknowledged; the retry is *)
+Example c05_history :
+  let run := fold_left (λ st o, let r := step [] st.1 o in (r.1, (st.2 ++ [r.2])%list)) in
+  let ops := [EConnect 0%nat "sub" "c-sub" "" "" 60 None 10; ESubscribe "sub" 1 [("t/#", 0)] 20;
+              EConnect 0%nat "pub" "c-pub" "" "" 60 None 30; EFailAppend 0%nat 1%nat;
+              EPublish "pub" (Publish "t/a" "x" 1 false) false 7 40; EPublish "pub" (Publish "t/a" "y" 1 false) false 8 50] in
+  nth 4%nat (run ops (cnew 1%nat, [])).2 [] = [AppendFailed 0%nat; Deadline "pub" 120000]
+  ∧ nth 5%nat (run ops (cnew 1%nat, [])).2 [] = [Appended 0%nat "_default/t/a" "y" 1 false; Out "pub" (OPubAck 8); Deadline "pub" 120000;
+                                          Out "sub" (OPublish "t/a" "y" 0 false false 0)].
+Proof. vm_compute. done. Qed.
